@@ -10,6 +10,6 @@ if [ ! -d ${LAB}/repo ]; then git -C /repo worktree add --detach ${LAB}/repo HEA
 git -C ${LAB}/repo checkout -q --detach "$(git -C /repo rev-parse HEAD)"; git -C ${LAB}/repo checkout -- .
 rsync -a --delete --exclude target --exclude evidence --exclude replay --exclude soak_out --exclude sweep_out --exclude .git /verif/ ${LAB}/verif/
 mkdir -p ${LAB}/verif/evidence
-sed -i 's#path = "/repo"#path = "${LAB}/repo"#' ${LAB}/verif/harness/*/Cargo.toml
+sed -i "s#path = \"/repo\"#path = \"${LAB}/repo\"#" ${LAB}/verif/harness/*/Cargo.toml
 grep -rl '"/repo' ${LAB}/verif/tools ${LAB}/verif/check 2>/dev/null | head
 if [ "${1:-}" != "sync" ] || [ ! -d ${LAB}/verif/harness/target ]; then (cd ${LAB}/verif && ./check setup >${LAB}/setup.log 2>&1; echo "lab setup exit $?"); fi
